@@ -94,9 +94,9 @@ _codec_check(
     "dynamic value tree (floats by bit pattern), reader position after every value = bytes the writer had produced, trailing sentinel reads back. Oversize logical "
     "buffers must be rejected by Write without UB. NOP_UNBOUNDED_BUFFER structures (value / structure / external forms, integral and structure elements) round-trip through caller-allocated storage. "
     "API-form stage: seven hand-written types through every documented form - Serializer<W> with an internal writer (incl. take() and move construction), Serializer<W*>, Serializer<unique_ptr<W>>, the three Deserializer forms, "
-    "Protocol<T>::Write/Read on each - must emit the reference bytes, read the sequence back and end exactly after it. Half of the sequences are followed by more data (a sentinel that must read back), half end the stream. "
+    "Protocol<T>::Write/Read on each - must emit the reference bytes, read the sequence back and end exactly after it. Half of the sequences are followed by more data (a sentinel that must read back), half end the stream; on every other reader kind the values of a sequence are read into one reused object. "
     "Fault stage: FdWriter / FdReader on a blocking pipe with a 4 KiB kernel buffer, a slow peer thread and a signal storm without SA_RESTART on the calling thread (partial and EINTR system calls) must transfer exactly the encoding. distinct = hash(type, bytes); non-trivial = encoding of 2+ bytes.",
-    {"quick": 3000, "thorough": 30000}, ["c01_values", "c01_sequences", "c01_reader_FdReader", "c01_reader_BoundedReader<Chunked>", "c01_writer_ConstexprBufferWriter", "c01_oversize_logical_buffer_writes", "cases_on_unbounded_buffer_types", "forms_writer_form_runs", "forms_reader_form_runs", "c01_sequences_ending_the_stream", "fd_storm_writes", "fd_storm_reads", "fd_storm_signals_delivered"],
+    {"quick": 3000, "thorough": 30000}, ["c01_values", "c01_sequences", "c01_reader_FdReader", "c01_reader_BoundedReader<Chunked>", "c01_writer_ConstexprBufferWriter", "c01_oversize_logical_buffer_writes", "cases_on_unbounded_buffer_types", "forms_writer_form_runs", "forms_reader_form_runs", "c01_sequences_ending_the_stream", "c01_sequences_read_into_one_object", "fd_storm_writes", "fd_storm_reads", "fd_storm_signals_delivered"],
     "exploration: 10^4-10^5 generated (type, value-sequence) cases, each decided exactly (value tree equality, exact consumed length) on every shipped writer x reader kind, with ASan/UBSan watching the same executions. Types, values and pairings are unbounded sets; sampling with exact per-case oracles is the level this technique reaches.",
     "trusts the independent reflection (vlib/reflect.h + generated Reflect specialisations) to read/write C++ objects faithfully; pairings are exercised per kind through identical bytes rather than as a literal cross product",
     "runtime round-trip oracle on every shipped reader/writer kind under ASan/UBSan, generated type corpus")
@@ -153,9 +153,9 @@ _codec_check(
     "C06", "exploration",
     "case = (type, value, capacity c, writer kind, fresh-or-partly-used writer): GetSize vs bytes written (equal for handle-free types), table entry framing parsed by the reference decoder, and every "
     "capacity 0..GetSize+1 (values <= 300 bytes; selected capacities beyond) on BufferWriter, PedanticBufferWriter, ConstexprBufferWriter, a capacity-checked LogWriter and BoundedWriter over each, "
-    "both into a fresh writer and as the second value after another one: room >= GetSize must succeed with the reference bytes, room < GetSize must return WriteLimitReached and write nothing "
+    "both into a fresh writer and as the second value after another one, and for BoundedWriter also with a generous bound over a wrapped writer that has the capacity under test: room >= GetSize must succeed with the reference bytes, room < GetSize must return WriteLimitReached and write nothing "
     "beyond the room (exact-size allocations under ASan). One case drives aggregate sizes >= 2^32 through reference_wrapper aliasing and a counting writer.",
-    {"quick": 100000, "thorough": 1000000}, ["c06_capacity_writes", "c06_second_value_writes", "c06_huge_aggregate_cases", "c06_table_framings_parsed", "c06_writer_BufferWriter", "forms_short_capacity_writes", "cases_on_unbounded_buffer_types"],
+    {"quick": 100000, "thorough": 1000000}, ["c06_capacity_writes", "c06_second_value_writes", "c06_huge_aggregate_cases", "c06_table_framings_parsed", "c06_writer_BufferWriter", "forms_short_capacity_writes", "cases_on_unbounded_buffer_types", "c06_bounded_writes_limited_by_the_wrapped_writer"],
     "exploration with exhaustive capacity sweeps per value: each generated value is written into every capacity from 0 to GetSize+1 on every bounded writer kind; types and values are sampled.",
     "BufferWriter is unchecked by design: safety is decided by ASan on exactly-sized allocations",
     "capacity sweep with status/size oracle under ASan on exact-size buffers")
@@ -204,7 +204,7 @@ CHECKS["C12"] = dict(
           "constructor that throws on its n-th construction. After every operation a shadow model {index, value} is compared through index/empty/Visit/get<T>/get<I>/is<T> and a lifetime registry is audited "
           "(live elements = non-empty tracked alternatives, no double destruction, no use of a dead object, nothing alive at the end). Exhaustive: every history of length <= 3 (quick) / 4 (thorough) over the "
           "98-operation alphabet; then random histories of length <= 40. Special scenarios: every constructor form (default, EmptyVariant, copy/move from empty and non-empty, converting copy/move from an empty and non-empty "
-          "Variant<Other...>, single-alternative Variants incl. swap and vector growth) placement-constructed into storage pre-filled with five byte patterns, so an uninitialised member shows as a wrong index()/Visit. distinct = enumerated histories + hashed random ones; non-trivial = 2+ operations."),
+          "Variant<Other...>, single-alternative Variants incl. swap and vector growth) placement-constructed into storage pre-filled with five byte patterns, so an uninitialised member shows as a wrong index()/Visit; a 130-alternative Variant at alternatives 0, 1, 63, 64, 126..129 (Become, copy, move, assign, get, Visit); an alternative that is a union type with a destructor. distinct = enumerated histories + hashed random ones; non-trivial = 2+ operations."),
     floor={"quick": 100000, "thorough": 1000000}, require_counters=["c12_operations_executed", "c12_injected_constructor_exceptions", "c12_random_histories", "c12_special_scenarios"],
     technique="shadow-model interpreter + lifetime registry over bounded-exhaustive and random operation histories, under ASan/UBSan",
     level_text="exploration with an exhaustive core: all operation histories up to length 3/4 over a 98-operation alphabet are enumerated and each step is decided exactly against a shadow model and a lifetime registry; longer histories are sampled.",
@@ -220,7 +220,7 @@ CHECKS["C13"] = dict(
           "77-operation alphabet, random to length 40. Comparisons: all 6 x 6 operand states x 18 operators for int/int, int/long, string, tracked and Entry operands against the total order 'empty < values'. "
           "Messages: all 19 ErrorStatus enumerators through Status<void> and Status<int>. "
           "Special scenarios: every constructor form of Optional/Entry/Result/Status in pattern-filled storage; a throwing element constructor at the 1st..3rd construction inside each of 14 assigning operations on empty and engaged destinations: "
-          "afterwards each object is empty or holds one alive value and the registry balances."),
+          "afterwards each object is empty or holds one alive value and the registry balances; decoding (Deserializer) into Optional<Optional<T>>, Optional<T>, Result<E,T> and table entries with tracked serializable elements from four prior states incl. NIL/error over a value and a truncated encoding."),
     floor={"quick": 100000, "thorough": 1000000}, require_counters=["c13_operations_executed", "c13_comparisons", "c13_error_messages", "c13_random_histories", "c13_special_scenarios", "c13_injected_constructor_exceptions"],
     technique="shadow-model interpreter + lifetime registry over bounded-exhaustive and random histories; exhaustive operand-state table for the 18 comparison operators",
     level_text="exploration with an exhaustive core: all histories up to length 3/4 over a 77-operation alphabet, all operand-state pairs of every comparison operator, all ErrorStatus values; longer histories sampled.",
@@ -260,10 +260,10 @@ CHECKS["C16"] = dict(
     rule=("history = sequence of Ensure/Read/ReadBlock(w=1,2,4,8)/Skip/ReadPadding (resp. Prepare/Write/WriteBlock/Skip/WritePadding) calls on BoundedReader<LogReader> / BoundedWriter<LogWriter>, sizes drawn from "
           "{0, 1, rem-1, rem, rem+1, 2^32, 2^63, 2^64-1-k, small} relative to the remaining budget at execution time; configurations = limits {0,1,2,7,8,9,64} x wrapped reader/writer longer or shorter than the "
           "limit x wrapped call #0/#1/#2 failing with StreamError/IOError/ProtocolError x nested BoundedReader<BoundedReader<>> with the tighter limit inside or outside. Oracle = 25-line budget model + a twin of the "
-          "wrapped reader/writer receiving the calls directly: status, delivered/written bytes, wrapped position, wrapped call log (a crossing call must not reach it), size()/empty()/capacity(), padding position and value. "
+          "wrapped reader/writer receiving the calls directly: status, delivered/written bytes, wrapped position, wrapped call log (a crossing call must not reach it), size()/empty()/capacity(), padding position and value; a quarter of the writer sequences are replayed on BoundedWriter over StreamWriter, PedanticBufferWriter and BufferWriter (same statuses, same bytes on the medium). "
           "Exhaustive: all sequences of length <= 3 (quick) / 4 (thorough) over the 40-call alphabet in every configuration; random to length 12."),
     floor={"quick": 500000, "thorough": 5000000},
-    require_counters=["c16_reader_calls", "c16_writer_calls", "c16_reader_calls_crossing_the_limit", "c16_writer_calls_crossing_the_limit", "c16_reader_calls_with_huge_sizes", "c16_writer_calls_with_huge_sizes"],
+    require_counters=["c16_reader_calls", "c16_writer_calls", "c16_reader_calls_crossing_the_limit", "c16_writer_calls_crossing_the_limit", "c16_reader_calls_with_huge_sizes", "c16_writer_calls_with_huge_sizes", "c16_writer_calls_on_shipped_writers"],
     technique="lock-step executable model + call-log oracle over bounded-exhaustive and random primitive-call histories, under ASan/UBSan",
     level_text="exploration with an exhaustive core: every call sequence up to length 3/4 over a 40-call relative-size alphabet in 49 reader and 35 writer configurations is decided exactly against the budget model; longer sequences are sampled.",
     level_note="the wrapped reader/writer is the harness' LogReader/LogWriter (documented interface, records every call, injectable faults)",
@@ -274,12 +274,12 @@ CHECKS["C17"] = dict(
     rule=("history = sequence of Ensure/Read/ReadBlock(w=1,2,4,8; counts 0,1,rem,rem+1,small)/Skip calls over sources of 0..64 bytes on BufferReader, PedanticBufferReader, StreamReader over stringstream and over a "
           "non-seekable chunked streambuf, FdReader over memfd and pipe (Skip-free sequences), BoundedReader over each (limit beyond and inside the data); and Prepare/Write/WriteBlock/Skip sequences on BufferWriter "
           "(kept within capacity), PedanticBufferWriter, ConstexprBufferWriter, StreamWriter, FdWriter, BoundedWriter over each with capacities 0..64. Oracle = array+position / vector+capacity model: same bytes in the "
-          "same order, failure at the same call with an allowed category, Ensure/Prepare exact on bounded kinds, checked writers refuse exactly the calls beyond capacity, byte stream equal after every call. "
+          "same order, failure at the same call with an allowed category, Ensure/Prepare exact on bounded kinds, checked writers refuse exactly the calls beyond capacity (the sequence continues after a refusal; BoundedWriter is also run over a checked writer tighter than its bound), byte stream equal after every call. "
           "Compile time: generated literal values (structures, BIN/ARY arrays, tables, 64-bit fields with distinct bytes) serialized in constant expressions are compared with four run-time writers, and generated "
           "constexpr Prepare/Write/Skip sequences on ConstexprBufferWriter with the model and with their own run-time evaluation. Fault stage: Write sequences with blocks up to 96 KiB through FdWriter into a blocking pipe (4 KiB buffer, "
           "slow peer, signal storm without SA_RESTART) and the same bytes back through FdReader from a slowly fed pipe under the storm must equal the model stream, with no call refused. Exhaustive to length 2 (quick) / 3 (thorough), random to length 10."),
     floor={"quick": 100000, "thorough": 1000000},
-    require_counters=["c17_reader_calls", "c17_writer_calls", "c17_constexpr_vs_runtime_comparisons", "c17_constexpr_sequences", "c17_reader_FdReader", "c17_writer_ConstexprBufferWriter", "c17_reader_StreamReader<chunked non-seekable>", "c17_fd_storm_writer_sequences", "c17_fd_storm_reader_sequences", "c17_fd_storm_signals_delivered"],
+    require_counters=["c17_reader_calls", "c17_writer_calls", "c17_constexpr_vs_runtime_comparisons", "c17_constexpr_sequences", "c17_reader_FdReader", "c17_writer_ConstexprBufferWriter", "c17_reader_StreamReader<chunked non-seekable>", "c17_fd_storm_writer_sequences", "c17_fd_storm_reader_sequences", "c17_fd_storm_signals_delivered", "c17_bounded_writer_over_tighter_writer_sequences", "c17_writer_calls_after_a_refusal_follow"],
     technique="differential execution of every shipped reader/writer against an executable byte-source/byte-sink model; compile-time constants emitted into the binary",
     level_text="exploration with an exhaustive core: all call sequences up to length 2/3 over the relative-size alphabet on every reader and writer kind and every source length / capacity in the grid; longer sequences and compile-time values are sampled.",
     level_note="equivalence is required up to and including the first failing call, as the property states; the unchecked BufferWriter is only driven within its capacity",
@@ -341,11 +341,11 @@ CHECKS["C09"] = dict(
     rule=("program = ordered type pair (A, B): A from the curated corpus and a bounded-depth grammar walk, B derived by (i) a documented fungibility-preserving rewrite (vector/array/logical buffer, sequence/tuple for non-integral "
           "elements, pair/tuple, map/unordered_map, wrapper/wrapped, element-wise under Optional/Result/Variant, member-wise structures, entry-wise tables) — the trait must be true — or (ii) a near-miss rewrite (integer "
           "width/signedness, enum/underlying, integral element vs wrapped integral element, array length, tuple arity, table id/hash/deleted marker, Optional<T>/T, map/vector<pair>, string/vector<char>, variant order, "
-          "dropped member) — the trait is only observed. Constants emitted per pair: IsFungible<A,B>, <B,A>, <A,A>, <B,B>, on signatures, and whether Protocol<A>::Write/Read admits B. For every pair where the trait "
-          "is true, values of A (and of B) whose element counts fit the other type are encoded, decoded as the other type (value tree must be equal, all bytes consumed) and re-encoded (same bytes; modulo entry order when "
+          "dropped member) — the trait is only observed. Constants emitted per pair: IsFungible<A,B>, <B,A>, <A,A>, <B,B>, on signatures, whether Protocol<A>::Write/Read admits B, and whether Method::Bind admits a handler written over B for a method declared over A (by const reference, by value, mixed, as return type) - all must equal IsFungible<A,B>. For every pair where the trait "
+          "is true, values of A (and of B) whose element counts fit the other type are encoded, decoded as the other type through a rotating reader kind (pedantic, seekable stream, chunked non-seekable stream, bounded; value tree must be equal, all bytes consumed) and re-encoded (same bytes; modulo entry order when "
           "an unordered_map is involved). distinct = hash(pair, bytes, direction)."),
     floor={"quick": 1000, "thorough": 20000},
-    require_counters=["c09_pairs", "c09_documented_pairs", "c09_near_miss_pairs", "c09_pairs_trait_true", "c09_pairs_trait_false", "c09_cross_decodes", "c09_trait_true_pairs_wire_tested"],
+    require_counters=["c09_pairs", "c09_documented_pairs", "c09_near_miss_pairs", "c09_pairs_trait_true", "c09_pairs_trait_false", "c09_cross_decodes", "c09_trait_true_pairs_wire_tested", "c09_bind_probes", "c09_reader_StreamReader<chunked non-seekable>"],
     technique="compile-time trait values emitted as constants + run-time cross-decode/re-encode oracle over generated type pairs, under ASan/UBSan",
     level_text="exploration over generated programs: a few hundred to a thousand generated type pairs per run; every trait-true pair is wire-tested in both directions on generated values. The relation ranges over an unbounded set of pairs; what is decided is the generated sample.",
     level_note="re-encoded bytes are compared modulo entry order when an unordered_map is involved (its iteration order is the container's own); values whose element counts do not fit the other type are skipped as the property states",
@@ -364,7 +364,7 @@ def gen_rpc(prop, tier, seed):
 ENGINE_KIND["rpc"] = "C++ harness (ASan+UBSan): generated interfaces and bindings; deterministic loopback transport with byte accounting + two-thread socketpair transport; handler invocation log; reference decoding of requests and replies"
 CHECKS["C14"] = dict(
     engine="rpc", flavour="asan", gen=gen_rpc, sources=["engines/rpc/main.cpp"], level="exploration", programs_counter="programs_interfaces",
-    rule=("program = generated interface: 1..8 methods, 0..4 arguments drawn from scalars, strings, containers, structures, variants, optionals, enums (by value and by const reference) with fungible / conforming substitutions at "
+    rule=("program = generated interface: 1..8 methods, 0..4 arguments drawn from scalars, strings, containers, structures, variants, optionals, enums, a table with vector entries (by value and by const reference) with fungible / conforming substitutions at "
           "the call site (array for vector, unordered_map for map, tuple for pair), returns incl. Result/Optional/containers; NOP_INTERFACE / NOP_INTERFACE32; NOP_METHOD and NOP_METHOD_SEL with adjacent and extreme selectors; "
           "bindings as free functions, lambdas, functors, const / non-const member functions with (instance, tag) passthrough or none; partial bindings. case (1) = call sequence of length 1..20/50 on a single-threaded loopback "
           "transport with exact byte accounting: per call the captured request is decoded independently (selector + argument tuple), exactly one handler invocation of the selected method with equal argument value trees and "
@@ -374,7 +374,7 @@ CHECKS["C14"] = dict(
           "with only 0..11 bytes of room in the reply direction: a dispatcher that reports success must have produced one complete reply. A hand-written interface has handlers returning references into their decoded arguments; another one relays: its handlers invoke the same method on a peer node from inside the handler "
           "(nested dispatch of one method on one thread, depth 0..5) and read their own arguments afterwards."),
     floor={"quick": 3000, "thorough": 100000},
-    require_counters=["c14_calls", "c14_bound_calls_checked", "c14_unbound_calls_checked", "c14_raw_requests_valid", "c14_raw_requests_invalid", "c14_fd_transport_calls", "c14_call_sequences", "c14_reply_write_failures_injected", "c14_reference_returning_handler_calls", "c14_reentrant_dispatch_calls"],
+    require_counters=["c14_calls", "c14_bound_calls_checked", "c14_unbound_calls_checked", "c14_raw_requests_valid", "c14_raw_requests_invalid", "c14_fd_transport_calls", "c14_call_sequences", "c14_reply_write_failures_injected", "c14_reference_returning_handler_calls", "c14_reentrant_dispatch_calls", "c14_interfaces_with_table_arguments_(no_fd_transport)"],
     technique="handler-invocation log + byte-accounting loopback transport + reference decoding of requests/replies over generated interfaces, under ASan/UBSan",
     level_text="exploration over generated programs: each generated interface is driven by sampled call sequences, a selector/argument cross product and the hostile-request catalogue; every call is decided exactly from the handler log, the byte counters and an independent decode of both directions.",
     level_note="the loopback transport is the harness' own (documented Reader/Writer interface); the out-parameter overload of Invoke (no return statement) is not used",
